@@ -124,7 +124,13 @@ namespace {
       }
       const int lines = int(rng.range(0, 6));
       for (int i = 0; i < lines; ++i) {
-        switch (rng.below(7)) {
+        switch (rng.below(8)) {
+        case 7: {
+          // line ends, carriage returns and tabs as DATA: inside a quoted string that spans lines every byte counts
+          const char *raw[6] = {"\r\n", "\n", "\r", "\r\n\r\n", "\t", "\n\r"};
+          c += std::string("t(\"s") + raw[rng.below(6)] + "e" + (rng.chance(300) ? raw[rng.below(6)] : "") + "\".size())" + nl;
+          break;
+        }
         case 0:
         case 1:
           c += "t(" + std::to_string(rng.range(1, 99)) + ")" + nl;
@@ -150,7 +156,13 @@ namespace {
           break;
         }
       }
-      if (rng.chance(700)) {
+      if (rng.chance(80)) {
+        // the file's value is a string with a line end inside it
+        c += std::string("\"v") + (rng.chance(500) ? "\r\n" : "\n") + "w\"";
+        if (rng.chance(300)) {
+          c += nl;
+        }
+      } else if (rng.chance(700)) {
         c += std::to_string(rng.range(1, 9999));
         if (rng.chance(300)) {
           c += nl;
